@@ -56,6 +56,19 @@ Fixpoint intern_from (M:R.rmap) (nd:ndeps_oracle) (n:N) (rs:list R.srev) : optio
   end.
 Definition intern (M:R.rmap) (nd:ndeps_oracle) : option graph := intern_from M nd 0%N (R.m_revs M).
 
+(* the graph the loader's own checks see (Revision.__init__ self-loops, RevisionMap._detect_cycles: Model.Cycle, C15):
+   down_revision and depends_on only *)
+Fixpoint intern0_from (H:list R.srev) (n:N) (rs:list R.srev) : option graph :=
+  match rs with
+  | [] => Some []
+  | r :: rs' =>
+      match pos_list H (R.s_down r), pos_list H (R.s_deps r), intern0_from H (N.succ n) rs' with
+      | Some d, Some p, Some g => Some (mkRev n d p [] [] :: g)
+      | _, _, _ => None
+      end
+  end.
+Definition intern0 (H:list R.srev) : option graph := intern0_from H 0%N H.
+
 (* ---------- results ---------- *)
 (* what is observed of one command: the revisions whose upgrade()/downgrade() ran, in order, and the rows of the
    version table afterwards; when an exception reached the caller, also its class *)
@@ -121,6 +134,12 @@ Definition current_of (M:R.rmap) (H:list R.srev) (rws:list str) (k : list N -> r
 
 Definition resolve_cmd (i:cmd_in) : rres :=
   if has_colon (c_target i) then RFail R.CmdOther else           (* "Range revision not allowed" *)
+  match intern0 (c_revs i) with
+  | None => RBad
+  | Some G0 =>
+  match Cycle.load G0 with
+  | LoadErr _ => RFail R.CmdRevision            (* LoopDetected / CycleDetected and their Dependency* forms are RevisionErrors *)
+  | Loaded _ =>
   match R.load (c_revs i) (c_oracle i) with
   | R.Err R.EBadOracle => RBad
   | R.Err e => RFail (R.catch_revision_errors e)
@@ -169,6 +188,8 @@ Definition resolve_cmd (i:cmd_in) : rres :=
         end
     | _, _ => RBad
     end
+  end
+  end
   end.
 
 (* ---------- stage 2: plan and run (MigrationContext.run_migrations) ---------- *)
